@@ -37,7 +37,7 @@ def interp_refine(ctx, cfg, d, field, u0s, t0, hs):
 
     objs = sm.build(cfg, field, u0s, t0)
     solver, prior = objs["solver"], objs["prior"]
-    stepper = sm.ModelStepper(ctx, cfg, field, d, c02.lam_of(cfg, d))
+    stepper = sm.ModelStepper(ctx, cfg, field, d, c02.lam_of(cfg, d), prior=prior)
     st0 = solver.init(jnp.asarray(t0), prior, damp=cfg.damp)
     for h in hs[:-1]:
         st0 = solver.step(st0, dt=jnp.asarray(h), damp=cfg.damp)
